@@ -165,7 +165,7 @@ def check(ctx):
         # NUMBER of non-missing elements (or on the total length), never on a smaller quantity such as the number of
         # distinct values
         for (n, st), ptxt in zip(stores, pos):
-            if ptxt.startswith("~") or not isinstance(st, ast.Assign):
+            if ptxt.startswith("~") or not isinstance(st, ast.Assign) or not ptxt.isidentifier():
                 continue
             NA_ = ptxt
             kinds = [_count_kind(rank, t, st, NA_) for t in _terms(st.value)]
@@ -179,6 +179,17 @@ def check(ctx):
                    f"among -- not after -- the others", clause="missing values ranked after all others")
     # ---------------------------------------------------------- ORD-unique
     us = [c for f, c in calls_in(uniq) if repo.dotted(f, c.func) == "numpy.unique"]
+    if not us:
+        # de-duplication by hashing / == of the raw elements: NaN and NaT are not equal to themselves, so every missing
+        # element stays "distinct" (np.unique treats them as equal)
+        hashed = [c for f, c in calls_in(uniq) if (repo.dotted(f, c.func) or "") in ("dataiter.util.unique_keys", "builtins.set", "builtins.dict.fromkeys",
+                                                                                     "builtins.frozenset")
+                  or norm(c.func) in ("dict.fromkeys", "set", "util.unique_keys")]
+        if hashed:
+            ctx.ob("ORD-unique", uniq, norm(hashed[0])[:70], hashed[0], False,
+                   f"{norm(hashed[0])[:50]} de-duplicates by hash and ==: NaN != NaN and NaT != NaT, so a vector with several missing "
+                   f"values keeps all of them (and an all-missing vector is returned whole), where each distinct value -- the missing "
+                   f"one included -- is to appear once", clause="unique returns each distinct value once, missing values included")
     ctx.count("np.unique sites in Vector.unique", len(us), 1)
     for c in us:
         ri = kw(c, "return_index")
